@@ -133,7 +133,11 @@ def parse_work(arg):
                 bad.append((m, t, e[1], g))
         elif g != e:
             bad.append((m, t, e, g))
-    return {"n": len(texts), "bad": bad[:5], "nbad": len(bad), "ops": n, "shas": {core.sha(t)[:12] for t in texts}}
+    smp = None
+    if texts:
+        j = len(texts) // 2
+        smp = {"source": texts[j], "expected_tree": expects[j] if not isinstance(expects[j], tuple) else expects[j][1], "parser_tree": got[j]}
+    return {"n": len(texts), "bad": bad[:5], "nbad": len(bad), "ops": n, "shas": {core.sha(t)[:12] for t in texts}, "sample": smp}
 
 
 def _strip_operand_parens(text, operands):
@@ -214,6 +218,8 @@ def run(rep, tier):
         rep.distinct.update(res["shas"])
         rep.evaluations += res["n"]
         rep.tally("parse_roundtrips_by_operator_count", str(res["ops"]), res["n"])
+        if res.get("sample") and res["ops"] >= 2:
+            rep.actual_sample(res["sample"])
         for m, text, exp, got in res["bad"]:
             ops, si, vname = m
             rep.violation("C08/parse/%s" % vname,
